@@ -972,9 +972,18 @@ def _run_timer(world: World, plan):
     rearm_left = [int(plan.get('rearm', 0)) if plan.get('cb') == 'rearm' else 0]
     holder = {}
 
+    seq = [0]
+    cb_seq = []                 # (time, seq) of every callback start
+    op_seq = []                 # (time, seq, op) once a cancel / re-arm has returned
+
+    def tick():
+        seq[0] += 1
+        return seq[0]
+
     async def callback():
         now = loop.time()
         callbacks.append(now)
+        cb_seq.append((now, tick()))
         world.trace('callback', loop.iterations)
         if rearm_left[0] > 0:
             rearm_left[0] -= 1
@@ -1008,12 +1017,15 @@ def _run_timer(world: World, plan):
             elif op == 'cancel':
                 model.cancel(now)
                 timer.cancel()
+                op_seq.append((now, tick(), 'cancel'))
             elif op == 'reschedule':
                 timeout = step.get('timeout')
                 if timeout is not None:
                     longest[0] = max(longest[0], float(timeout))
                 model.reschedule(now, timeout)
                 timer.reschedule(timeout)
+                if (timeout if timeout is not None else float(plan.get('timeout', 1.0))) > 0:
+                    op_seq.append((now, tick(), 'reschedule'))
         await asyncio.sleep(longest[0] * (2 + int(plan.get('rearm', 0))) + 1.0)
         t_end[0] = loop.time()
 
@@ -1022,6 +1034,13 @@ def _run_timer(world: World, plan):
     violations, stats = model.evaluate(callbacks, t_end[0])
     for invariant, facts in violations:
         world.violate(invariant, **facts)
+    # inside one instant the order of events decides: once cancel() / reschedule() has returned, a callback that STARTS
+    # later in that instant can only belong to the deadline that was just given up
+    for (t_op, s_op, what) in op_seq:
+        if any(abs(t_cb - t_op) <= EPS and s_cb > s_op for (t_cb, s_cb) in cb_seq):
+            world.violate('C18.timer', what=('cancelled' if what == 'cancel' else 'superseded') +
+                          ' deadline called back', rearmed=False, same_instant=True)
+            break
     check_errors(world, failed)
     if stats['ties']:
         world.probe('timer_op_in_instant_of_deadline', stats['ties'])
